@@ -120,18 +120,49 @@ def sstr(v):
     return z3.StringVal(v) if isinstance(v, str) else v.t
 
 
+def _flat_concat(t, out):
+    if z3.is_app(t) and t.decl().kind() == z3.Z3_OP_SEQ_CONCAT:
+        for c in t.children():
+            _flat_concat(c, out)
+    else:
+        out.append(t)
+
+
 def str_concat(parts):
+    """Canonical concatenation: nested concatenations are flattened, adjacent literals merged, so the
+    same pieces always give the syntactically same term."""
     out = []
     for p in parts:
-        if isinstance(p, str) and out and isinstance(out[-1], str):
-            out[-1] += p
+        if isinstance(p, SV):
+            ts = []
+            _flat_concat(p.t, ts)
+            for t in ts:
+                if z3.is_string_value(t):
+                    lit = _string_value(t)
+                    if out and isinstance(out[-1], str):
+                        out[-1] += lit
+                    elif lit:
+                        out.append(lit)
+                else:
+                    out.append(t)
+        elif isinstance(p, str):
+            if out and isinstance(out[-1], str):
+                out[-1] += p
+            elif p:
+                out.append(p)
         else:
             out.append(p)
     if not out:
         return ""
     if len(out) == 1:
-        return out[0]
-    return SV("str", z3.Concat(*[sstr(p) for p in out]))
+        return out[0] if isinstance(out[0], str) else SV("str", out[0])
+    return SV("str", z3.Concat(*[z3.StringVal(x) if isinstance(x, str) else x for x in out]))
+
+
+def _string_value(t):
+    import re as _re
+
+    return _re.sub(r"\\u\{([0-9a-fA-F]+)\}", lambda m: chr(int(m.group(1), 16)), t.as_string())
 
 
 def int_to_str(t):
@@ -1144,7 +1175,15 @@ def setitem(ex, st, ref, idx, v):
     _mutable_check(ex, st, o)
     if isinstance(o, PDict):
         if is_sym(idx):
-            ex.give_up(st, "symbolic key store into concrete dict")
+            # a concrete dict receiving a symbolic key becomes a symbolic dict (same heap address)
+            try:
+                nd = pdict_to_sdict(o, natural_sort(idx), natural_sort(v))
+            except (TypeError, ValueError) as e:
+                ex.give_up(st, f"symbolic key store into concrete dict: {e}")
+                return
+            st.heap[ref.addr] = nd
+            sdict_store(nd, idx, v)
+            yield st, None
             return
         o.items[idx] = v
         yield st, None
@@ -1166,6 +1205,34 @@ def setitem(ex, st, ref, idx, v):
         yield ex.raise_(st, "TypeError")
     else:
         ex.give_up(st, f"item assignment on {o!r}")
+
+
+def pdict_to_sdict(o: PDict, ksort, vsort) -> SDict:
+    if ksort is None or vsort is None:
+        raise TypeError("cannot infer key/value sorts")
+    K, V = z3sort(ksort), z3sort(vsort)
+    n = z3.IntVal(0)
+    key_at = z3.K(z3.IntSort(), lift(_default_of(ksort), ksort))
+    pos = z3.K(K, z3.IntVal(-1))
+    has = z3.K(K, z3.BoolVal(False))
+    val = z3.K(K, lift(_default_of(vsort), vsort))
+    d = SDict(ksort, vsort, terms=(n, key_at, pos, has, val))
+    for k, v in o.items.items():
+        sdict_store(d, k, v)
+    return d
+
+
+def _default_of(sort):
+    sort = parse_sort(sort)
+    if sort == "int":
+        return 0
+    if sort == "bool":
+        return False
+    if sort == "str":
+        return ""
+    if isinstance(sort, tuple) and sort[0] == "opt":
+        return None
+    raise TypeError(f"no default for sort {sort}")
 
 
 def sdict_store(d: SDict, k, v):
